@@ -271,6 +271,9 @@ func g2lProj(t string, i, n int) string {
 // assignTo emits the assignment of the Lean term val to the Go left-hand side l.
 func (f *g2lFn) assignTo(l ast.Expr, val string, define bool, ind int) []string {
 	l = ast.Unparen(l)
+	if out, ok := f.assignEff(l, val, ind); ok { // go2lean_effects.go: through pointer-typed places
+		return out
+	}
 	switch x := l.(type) {
 	case *ast.Ident:
 		if x.Name == "_" {
@@ -381,6 +384,12 @@ func (f *g2lFn) ret(x *ast.ReturnStmt, ind int) []string {
 	}
 	switch len(x.Results) {
 	case 0:
+		if io := f.inOutNames(); len(io) > 0 && f.fnObj != nil && f.fnObj.Type().(*types.Signature).Results().Len() == 0 {
+			if len(io) == 1 {
+				return []string{g2lInd(ind) + "return " + io[0]}
+			}
+			return []string{g2lInd(ind) + "return (" + strings.Join(io, ", ") + ")"}
+		}
 		f.fail("bare return (named results are outside the subset)")
 	case 1:
 		if _, ok := f.typeOf(x.Results[0]).(*types.Tuple); ok {
@@ -585,6 +594,9 @@ func (f *g2lFn) rangeStmt(x *ast.RangeStmt, ind int) []string {
 	if x.Tok != token.DEFINE && (x.Key != nil || x.Value != nil) {
 		f.fail("range assigning to existing variables")
 	}
+	if out, ok := f.rangeEff(x, ind); ok { // go2lean_effects.go: loops that write through their elements
+		return out
+	}
 	t := f.typeOf(x.X)
 	var out []string
 	keyObj := func(e ast.Expr) *types.Var {
@@ -655,6 +667,9 @@ func (f *g2lFn) rangeStmt(x *ast.RangeStmt, ind int) []string {
 }
 
 func (f *g2lFn) stmt(s ast.Stmt, ind int) []string {
+	if out, ok := f.stmtEff(s, ind); ok { // go2lean_effects.go: calls of functions with in-out parameters
+		return out
+	}
 	switch x := s.(type) {
 	case *ast.EmptyStmt:
 		return nil
@@ -838,7 +853,8 @@ func (g *g2l) translateFunc(key string) (u *g2lUnit) {
 	if sig.Variadic() {
 		f.fail("variadic function")
 	}
-	if sig.Results().Len() == 0 {
+	void := sig.Results().Len() == 0
+	if void && len(g.inOutFor(key)) == 0 {
 		f.fail("no result (a function without result is only called for its effect)")
 	}
 	if fd.Type.Results != nil {
@@ -850,6 +866,7 @@ func (g *g2l) translateFunc(key string) (u *g2lUnit) {
 	}
 	f.assignNames(fd)
 	f.findMutated(fd)
+	f.initEff(fd) // go2lean_effects.go
 	// parameters, receiver first
 	var params, remut []string
 	f.initPtrModes(obj)
@@ -872,14 +889,17 @@ func (g *g2l) translateFunc(key string) (u *g2lUnit) {
 	for i := 0; i < sig.Params().Len(); i++ {
 		addParam(sig.Params().At(i), false)
 	}
+	params = append(g.ctxParams(), params...)
 	var resT string
-	if sig.Results().Len() == 1 {
+	if void {
+		resT = ""
+	} else if sig.Results().Len() == 1 {
 		resT = f.lean(sig.Results().At(0).Type())
 	} else {
 		resT = f.lean(sig.Results())
 	}
 	resT = f.inOutResult(resT, sig.Results().Len())
-	if !g2lTerminates(fd.Body.List) {
+	if !void && !g2lTerminates(fd.Body.List) {
 		f.fail("the body does not end in a return on every path the translator recognises")
 	}
 	head := fmt.Sprintf("def %s %s : %s :=", u.lean, strings.Join(params, " "), resT)
@@ -896,6 +916,9 @@ func (g *g2l) translateFunc(key string) (u *g2lUnit) {
 			lines = append(lines, g2lInd(1)+r)
 		}
 		lines = append(lines, f.block(fd.Body.List, 1)...)
+		if void && !g2lTerminates(fd.Body.List) {
+			lines = append(lines, f.ret(&ast.ReturnStmt{}, 1)...)
+		}
 		u.text = head + " Id.run do\n" + strings.Join(lines, "\n") + "\n"
 	}
 	if f.loops != len(f.fuel) {
